@@ -32,48 +32,13 @@ func draw(t *rapid.T) sim.ChainCase {
 	g := sim.GenChain(t, sim.GenOpts{
 		Net:       sim.NetOpts{MaxForkHeight: rapid.SampledFrom([]int{6, 12, 25, 40}).Draw(t, "forkSpan"), V2Only: rapid.IntRange(0, 5).Draw(t, "v2only") == 0},
 		MinBlocks: 6, MaxBlocks: max, Reorgs: true, MaxReorg: 8, Profile: sim.Profile{Contracts: rapid.IntRange(0, 3).Draw(t, "contractWeight"), MaxTxns: 6},
-		OnBlock: sameBlockScenarios,
+		OnBlock: sim.SameBlockScenarios,
 	})
 	c, err := g.Case.Normalize()
 	if err != nil {
 		panic(err)
 	}
 	return c
-}
-
-// sameBlockScenarios occasionally forces the combinations the property singles out.
-func sameBlockScenarios(g *sim.Gen, b *sim.Builder) {
-	switch rapid.IntRange(0, 9).Draw(g.T, "scenario") {
-	case 0: // revise then prove a v1 contract inside one block (possible when the window opens at this height)
-		b.V1ReviseThenProve()
-	case 4:
-		b.V1FormThenProve()
-	case 1: // create and revise
-		if b.V1Form() {
-			b.V1ReviseCreatedInBlock()
-		}
-	case 5: // the same contract revised twice (or revised and renewed) inside one block
-		if b.V1Revise() {
-			b.V1ReviseAgainInBlock()
-		}
-		b.AfterV1(func() {
-			if b.V2Revise() {
-				if rapid.Bool().Draw(g.T, "againOrRenew") {
-					b.V2ReviseAgainInBlock()
-				} else {
-					b.V2RenewRevisedInBlock()
-				}
-			}
-		})
-	case 2:
-		b.V1Pay()
-		b.V1Pay() // second payment may spend the first one's outputs
-	case 3:
-		b.AfterV1(func() {
-			b.V2Pay()
-			b.V2Pay()
-		})
-	}
 }
 
 type applied struct {
